@@ -459,6 +459,14 @@ func New(members ...Member) (Baggage, error) {
 		return Baggage{}, fmt.Errorf("%w: %d", errBaggageBytes, n)
 	}
 
+	// Enforce the same per-member limit Parse does, otherwise the returned
+	// Baggage serializes to a header that Parse rejects.
+	for _, m := range bag.Members() {
+		if n := len(m.String()); n > maxBytesPerMembers {
+			return Baggage{}, fmt.Errorf("%w: %d", errMemberBytes, n)
+		}
+	}
+
 	return bag, nil
 }
 
